@@ -76,3 +76,25 @@ Example C15_nonvacuous :
   roundtrip_wf_b nv15_pl nv15_cs "Omega" = true /\
   patch_wf_b (mkPatch "L" (Some "F") 4 ["0"; "0"; "0"; "0"] ["1"; "2"; "3"; "4"]) = true.
 Proof. split; vm_compute; reflexivity. Qed.
+
+(* a joined domain WITHOUT external boundary (a ring of two lines): the hypotheses hold, so it is exported and read
+   back like any other (since /repo's "fix: a domain without external boundary can be exported"; before,
+   Domain.todict called None.todict() and raised AttributeError) *)
+Definition ring_pl := [mkPatch "L1" None 1 ["0"] ["1"]; mkPatch "L2" None 1 ["1"] ["2"]].
+Definition ring_cs := [mkConn (mkSide (PIdx 0) 0 1%Z) (mkSide (PIdx 1) 0 (-1)%Z) None;
+                       mkConn (mkSide (PIdx 1) 0 1%Z) (mkSide (PIdx 0) 0 (-1)%Z) None].
+Example C15_roundtrip_without_external_boundary :
+  roundtrip_wf_b ring_pl ring_cs "ring" = true /\
+  exists D, join (map patch_dom ring_pl) ring_cs "ring" = Ok D /\ d_boundary D = [] /\ length (d_conn D) = 2 /\
+            exists D', from_dict (fdict_of D) = Ok D' /\ todict D' = Ok (fdict_of D).
+Proof.
+  split; [vm_compute; reflexivity|].
+  destruct (roundtrip_wf_b_sound ring_pl ring_cs "ring" eq_refl) as [D [rl H]].
+  exists D. pose proof H as H0. destruct H0 as (_ & _ & _ & _ & _ & EJ & _).
+  split; [exact EJ|]. 
+  assert (E : join (map patch_dom ring_pl) ring_cs "ring" = Ok D) by exact EJ.
+  vm_compute in E. inversion E; subst D. clear E.
+  split; [reflexivity|]. split; [reflexivity|].
+  destruct (roundtrip_joined _ _ _ _ _ H) as [_ [D' [E2 [_ [_ [_ [_ [_ [_ E3]]]]]]]]].
+  exists D'. split; assumption.
+Qed.
